@@ -694,6 +694,15 @@ def subsets(pool, kmax):
         yield from itertools.combinations(range(len(pool)), n)
 
 
+# quick tier: (metadata, qualifier) profiles of the leaf context families (the thorough tier runs the full product)
+QUICK_LEAF_CTX = {("m0", "q0"), ("m0", "qe"), ("m1", "q2"), ("m1", "q3"), ("m2", "q0"), ("m2", "q3")}
+
+
+def _quick_skip_window(p, lo, hi, N):
+    """quick tier, collections: drop the tight window [lo,hi) and the 3'-cutting window [0,hi-1)"""
+    return p in (["chunk", lo, hi], ["chunk", 0, hi - 1]) and p != ["chunk", 0, N]
+
+
 def _kid_metas(first_m, n):
     return first_m if n == 0 else ("m3" if first_m == "m1" else "m0")
 
@@ -726,6 +735,8 @@ def corpus(tier):
             for p in parent_kinds(lo, hi, Nc, tier):
                 for m in T["metas"]:
                     for q in T["quals_leaf"]:
+                        if not thorough and (m, q) not in QUICK_LEAF_CTX:
+                            continue
                         out.append(dict(base, N=Nc, p=p, m=m, q=Q[q], fam="ctx"))
     # collections of one kind: 1-3 transcripts / 1-2 features / 1-2 variants; (first child metadata, qualifiers) tied
     txp, fp, vp = tx_pool(), feat_pool(), var_pool()
@@ -739,6 +750,8 @@ def corpus(tier):
                 g = {"c": cname, key: kids, "N": Nc}
                 lo, hi = span_of(g)
                 for p in parent_kinds(lo, hi, Nc, tier):
+                    if not thorough and _quick_skip_window(p, lo, hi, Nc):
+                        continue
                     out.append(dict(g, p=p, m=m, q=Q[q], fam="ctx"))
     # annotation collections
     g1 = dict(c="gene", tx=[dict(txp[0], m="m1", q=Q["q2"]), dict(txp[1], m="m3", q=Q["q0"])], m="m1", q=Q["q3"])
@@ -766,7 +779,13 @@ def corpus(tier):
                     a = dict(base, bounds=bounds, cw=cw)
                     blo, bhi = span_of(a)
                     for p in parent_kinds(blo, bhi, Nc, "quick"):
+                        if not thorough and _quick_skip_window(p, blo, bhi, Nc):
+                            continue  # quick: whole-chromosome, 5'-cutting, inner and disjoint windows only
+                        if not thorough and bounds is not None and p in ("chrom0", ["chunk", 0, Nc]):
+                            continue  # quick: explicit bounds on none / chromosome / cutting / disjoint windows
                         for m, q in own_ctx:
+                            if not thorough and bounds is not None and m == "m0":
+                                continue  # quick: the plain profile only with inferred bounds
                             out.append(dict(a, p=p, m=m, q=Q[q], fam="ctx"))
                 if thorough:  # every chunk window for the plain collection
                     a = dict(base, bounds=None, cw=None)
@@ -774,7 +793,32 @@ def corpus(tier):
                     for p in parent_kinds(lo, hi, Nc, "thorough"):
                         if p not in done:
                             out.append(dict(a, p=p, m="m1", q=Q["q3"], fam="ctx"))
+    if not thorough:
+        for spec in out:
+            spec["d"] = quick_depth(spec)
     return out
+
+
+def quick_depth(spec):
+    """quick tier: chains of length 3 on a sub-family of every class (rich metadata + qualifier profile, in the contexts
+    none / whole chromosome / chunk), chains of length <= 2 elsewhere (single hops for the parent-less copies of the geometry families and for collections
+    with explicit bounds).  The thorough tier runs length 3 everywhere."""
+    c, p = spec["c"], spec.get("p")
+    rich = spec.get("m") == "m1" and bool(spec.get("q")) and len(spec["q"]) >= 3
+    if spec.get("fam") == "geom":
+        # one deep object per class and strand: the single block [0,1) in the rich context
+        blocks = spec.get("ex") or spec.get("bl") or [[spec.get("s"), spec.get("e")]]
+        if blocks == [[0, 1]]:
+            return 3
+        return 2 if p != "none" else 1  # the plain (parent-less, qualifier-less) copy of every geometry: single hops
+    if c in ("tx", "feat", "cds", "var"):
+        return 3 if rich else 2
+    wide = p in ("none", "chrom") or (isinstance(p, list) and p[1] == 0 and p[2] == spec["N"])
+    if c == "ac":
+        if spec.get("bounds"):
+            return 1  # explicit bounds: single hops (every transition type once)
+        return 3 if rich and wide and p != "chrom" else 2
+    return 3 if rich and wide else 2
 
 
 def perm_items(tier):
@@ -790,7 +834,11 @@ def perm_items(tier):
         fc = dict(c="fc", ft=[dict(fp[0], m="m1", q=q), dict(fp[1], m="m0", q=q)], m="m1")
         vc = dict(c="vc", vs=[dict(vp[0], m="m1", q=q), dict(vp[2], m="m0", q=q)], m="m1")
         ac = dict(c="ac", genes=[dict(gene, q=q)], fcs=[dict(fc, q=q)], vcs=[dict(vc, q=q)], bounds=None, cw=None, m="m1")
-        for base in leafs + ([gene, fc, vc, ac] if qn != "q4" else []):
-            for p in ("none", "chrom") if qn != "q4" else ("none",):
+        if qn == "q4" or (qn == "q3" and tier == "quick"):
+            bases, parents = (leafs if qn == "q4" else [leafs[0], leafs[2], leafs[4], ac]), ("none",)
+        else:
+            bases, parents = leafs + [gene, fc, vc, ac], ("none", "chrom")
+        for base in bases:
+            for p in parents:
                 out.append(dict(base, N=Nc, p=p, q=copy.deepcopy(q), qn=qn))
     return out
